@@ -401,6 +401,10 @@ def build_tables(case, out):
                     if a == tk:
                         if isinstance(iv, float):
                             gt[(f, g)] = iv > float(tcorr)
+                            iv2 = ((ipair.get(k + "_rev") or {}).get(f) or {}).get(g)
+                            if isinstance(iv2, float) and (iv2 > float(tcorr)) != gt[(f, g)]:
+                                fragile.append(f"{f},{g}:{k}: association equals thresh_corr and the float "
+                                               "comparison depends on the column order")
                         else:
                             gt[(f, g)] = False
                     else:
@@ -710,8 +714,11 @@ def run_selector(case):
         for k in fs:
             try:
                 if k in ("spearman", "pearson"):
+                    # pandas computes a pair with the column that comes first as x: both orders
                     cm = X[names].corr(k).abs()
+                    rm = X[names[::-1]].corr(k).abs()
                     prs[k] = {f: {g: fnum(cm.loc[f, g]) for g in names if g != f} for f in names}
+                    prs[k + "_rev"] = {f: {g: fnum(rm.loc[f, g]) for g in names if g != f} for f in names}
                 else:
                     fn = cramerv_measure if k == "cramerv" else tschuprowt_measure
                     prs[k] = {f: {g: fnum(fn(X[f], X[g])[1][f"{k}_measure"]) for g in names if g != f}
@@ -1164,7 +1171,7 @@ def coq_type(t, sel):
     out = C.clist([f"{idx[f]}%nat" for f in sel if f in idx])
     return (f"mkT (mkTin {C.cZ(t['n'])} ({C.cZ(tn.numerator)}, {C.cZ(tn.denominator)}) "
             f"({C.cZ(tm.numerator)}, {C.cZ(tm.denominator)}) {max(0, int(t['n_best']))}%nat "
-            f"{C.clist(mspecs)} {C.clist(rows)} {C.clist(fils)}) {out}")
+            f"{C.clist(mspecs)} {C.clist(rows)} {C.clist(fils)}) {out} {C.cbool(bool(t['fragile']))}")
 
 
 def coq_case(case, out, tabs):
@@ -1243,7 +1250,7 @@ class C14(Prop):
                 + [gen_iqr_case(rng) for _ in range(ns)])
 
     def search_cases(self, rng, neighbours, rnd):
-        return [gen_case(rng) for _ in range(150)]
+        return [gen_case(rng) for _ in range(60)] + [gen_two_measure_case(rng) for _ in range(10)]
 
     # ---- implementation ---------------------------------------------------------------------
     def run_impl(self, case):
